@@ -14,8 +14,8 @@ func init() {
 		Title: "A storage directory is owned by at most one open store at a time",
 		Harnesses: []*HarnessSpec{
 			{Name: "H_C17_seq", Tier: "quick", What: "every sequence of 2..5 operations over Open / Close / use-or-Close of an old handle on one directory: open of an owned directory fails and leaves the directory listing unchanged; Close removes LOCK and the next Open succeeds; after Close every public operation fails, a second Close reports an error, changes nothing and does not release a new owner's lock", Covers: []string{"open-refused", "closed", "use-after-close"}},
-			{Name: "H_C17_fault", Tier: "quick", What: "one injected fault at each of the first 6 file-system calls of Open (MkdirAll, create LOCK, write pid, ReadDir x2 ...), on an empty directory and on one that held a store: a failed Open returns no handle, leaves no LOCK, and the next Open succeeds", Covers: []string{"open-failed", "open-survived"}},
-			{Name: "H_C17_race", Tier: "quick", What: "two goroutines racing to open the same directory, every interleaving at sync-operation granularity with <=2 pre-emptions: exactly one succeeds", Covers: []string{"ran"}},
+			{Name: "H_C17_fault", Tier: "quick", EngineReplay: true, What: "one injected fault at each of the first 6 file-system calls of Open (MkdirAll, create LOCK, write pid, ReadDir x2 ...), on an empty directory and on one that held a store: a failed Open returns no handle, leaves no LOCK, and the next Open succeeds", Covers: []string{"open-failed", "open-survived"}},
+			{Name: "H_C17_race", Tier: "quick", EngineReplay: true, What: "two goroutines racing to open the same directory, every interleaving at sync-operation granularity with <=2 pre-emptions: exactly one succeeds", Covers: []string{"ran"}},
 		},
 		Bounds:      []string{"histories of <=5 operations; one injected fault per history; 2 racing goroutines (1..8 in the property)"},
 		Outside:     []string{"another PROCESS owning the directory (the model has one process; the LOCK file protocol is the same)", "operations racing with Close (C11)", "3..8 goroutines"},
@@ -28,7 +28,7 @@ func init() {
 		Title: "Data acknowledged by Flush or Close survives a restart",
 		Harnesses: []*HarnessSpec{
 			{Name: "H_C09_restart", Tier: "quick", What: "2..4 sessions, each: Open with FRESH templates, check every document made durable so far (vector, token and metadata query), [no-op Flush], add 1..2 documents, [Flush], Close; memtable limit one document / unlimited; 4 template sets (flat+text+metadata, hnsw+text, trained ivf+metadata, flat); segment files never overwritten", Covers: []string{"ran"}},
-			{Name: "H_C09_restart_orders", Tier: "quick", What: "two single-document segments from two sessions, third session: every order of the per-segment load/search goroutines, then searches served from the cached segments", Covers: []string{}},
+			{Name: "H_C09_restart_orders", Tier: "quick", EngineReplay: true, What: "two single-document segments from two sessions, third session: every order of the per-segment load/search goroutines, then searches served from the cached segments", Covers: []string{}},
 			{Name: "H_C09_ids", Tier: "quick", What: "segment ids never reused: directory holding a real segment plus a segment-like file (any of the 4 components, empty or not) with id in {7,8,9,10,63,64,99,100,777}: the next flush takes the id above it and overwrites nothing", Covers: []string{"ran"}},
 		},
 		ModelDiff:   false,
